@@ -476,3 +476,91 @@ def generate(seed, count):
                 odes.append((rng.choice(states), rng.choice(pv) * rng.choice(sv) - rng.choice(sv) * rng.choice(sv)))
         out.append(ModelSpec("gen%d_%d" % (seed, idx), states, params, events, odes, derived))
     return out
+
+
+# ---- catalogue models: an oracle read from the DEFINITION as given ---------------------------------
+def from_string(src):
+    """PyGOM equation string -> Expr, by Python's ast (never sympy): + - * / ** (integer exponent), unary minus,
+    exp/log/sin/cos/sqrt, numeric literals, names ('pi' stays a name only if the model declares it)"""
+    import ast
+    tree = ast.parse(src.strip(), mode="eval").body
+
+    def go(n):
+        if isinstance(n, ast.BinOp):
+            a, b = go(n.left), go(n.right)
+            if isinstance(n.op, ast.Add):
+                return Add(a, b)
+            if isinstance(n.op, ast.Sub):
+                return Add(a, Neg(b))
+            if isinstance(n.op, ast.Mult):
+                return Mul(a, b)
+            if isinstance(n.op, ast.Div):
+                return Div(a, b)
+            if isinstance(n.op, ast.Pow):
+                if isinstance(b, Const) and float(b.v).is_integer() and b.v >= 0:
+                    return Pow(a, int(b.v))
+                raise ValueError("non-integer power in %r" % src)
+            raise ValueError("operator in %r" % src)
+        if isinstance(n, ast.UnaryOp):
+            if isinstance(n.op, ast.USub):
+                return Neg(go(n.operand))
+            if isinstance(n.op, ast.UAdd):
+                return go(n.operand)
+            raise ValueError("unary operator in %r" % src)
+        if isinstance(n, ast.Constant):
+            v = n.value
+            return Const(v if isinstance(v, int) else fractions.Fraction(repr(v)) if isinstance(v, float) else v)
+        if isinstance(n, ast.Name):
+            return Var(n.id)
+        if isinstance(n, ast.Call) and isinstance(n.func, ast.Name) and n.func.id in ("exp", "log", "sin", "cos", "sqrt") and len(n.args) == 1:
+            return Fn(n.func.id, go(n.args[0]))
+        raise ValueError("unsupported syntax in %r" % src)
+    return go(tree)
+
+
+CATALOGUE = ["SIS", "SIS_Periodic", "SIR", "SIR_norm", "SIR_Birth_Death", "SEIR", "SEIR_Birth_Death", "SEIR_Birth_Death_Periodic",
+             "SEIR_Multiple", "Influenza_SLIARD", "Legrand_Ebola_SEIHFR", "Lotka_Volterra", "FitzHugh", "Lorenz", "vanDerPol", "Robertson"]
+
+
+def catalogue_spec(name):
+    """(ModelSpec, built model) for a model of pygom.model.common_models.  The ORACLE side is assembled by this
+    module from the definition the model object stores as given (event list: rate string + transitions with
+    origin/destination/type/magnitude; explicit ODE strings; derived-parameter strings), read with from_string;
+    PyGOM's own assembly (get_ode_eqn, vMat, ...) is what gets compared against it."""
+    from pygom.model import common_models, ode_utils
+    m = getattr(common_models, name)()
+    m._SC = ode_utils.compileCode(backend="lambda")
+    states = [str(s_) for s_ in m.state_list]
+    params = [str(p_) for p_ in m.param_list]
+    events = []
+    for ev_ in m.event_list:
+        trs = []
+        for t_ in ev_.transition_list:
+            kind = t_.transition_type.name
+            mag = from_string(str(t_._magnitude))
+            if kind == "T":
+                trs.append(Tr("T", str(t_.origin), str(t_.destination), magnitude=mag))
+            elif kind == "B":
+                if t_.destination is not None:
+                    trs.append(Tr("B", destination=str(t_.destination), magnitude=mag))
+                else:
+                    trs.append(Tr("B", origin=str(t_.origin), magnitude=mag, birth_by_origin=True))
+            elif kind == "D":
+                trs.append(Tr("D", origin=str(t_.origin), magnitude=mag))
+            else:
+                raise ValueError("transition type %s inside an event" % kind)
+        events.append(Ev(from_string(str(ev_.rate)), trs))
+    odes = [(str(t_.origin), from_string(str(t_.equation))) for t_ in m.ode_list]
+    derived = [(str(n_), from_string(str(e_))) for n_, e_ in (getattr(m, "_derivedParamEqn", None) or [])]
+    sp = ModelSpec("catalogue_" + name, states, params, events, odes, derived)
+    sp.model = m          # checks use this real object instead of building one from the spec
+    return sp, m
+
+
+_CAT = {}
+
+
+def catalogue(name):
+    if name not in _CAT:
+        _CAT[name] = catalogue_spec(name)[0]
+    return _CAT[name]
